@@ -96,16 +96,27 @@ func suiteC14(s *Suite, rng *Rng, tier string) {
 				nonrev := kp.Pk.G != nil && rng.Intn(3) == 0
 				var cred *gabi.Credential
 				if nonrev {
-					cred, _ = makeRevCredential(kp, total, 3, rng)
+					cred, _ = makeRevCredential(kp, total, 4, rng)
 				} else {
-					cred = makeCredential(kp, total, 3, rng)
+					cred = makeCredential(kp, total, 4, rng)
 				}
 				// the holder only knows its own share
 				cred.Attributes[0] = userSecret
 				var stm map[int][]*rangeproof.Statement
-				if rng.Intn(3) == 0 && cred.Attributes[2].BitLen() < 250 {
-					st, _ := rangeproof.NewStatement(rangeproof.GreaterOrEqual, bi(0))
-					stm = map[int][]*rangeproof.Statement{2: {st}}
+				if round%2 == 0 || rng.Intn(3) == 0 {
+					// range parts on one, two or three hidden attributes (the builder commits twice in this protocol: for the
+					// hashed challenge input and for the challenge itself; both must list the contributions alike)
+					stm = map[int][]*rangeproof.Statement{}
+					for _, j := range []int{2, 3, 4} {
+						if (nonrev && j == 4) || cred.Attributes[j].BitLen() >= 250 || (len(stm) > 0 && round%2 == 1 && rng.Intn(3) == 0) {
+							continue
+						}
+						st, _ := rangeproof.NewStatement(rangeproof.GreaterOrEqual, bi(0))
+						stm[j] = []*rangeproof.Statement{st}
+					}
+					if len(stm) == 0 {
+						stm = nil
+					}
 				}
 				b, err := cred.CreateDisclosureProofBuilder([]int{1}, stm, nonrev)
 				if err != nil {
